@@ -161,15 +161,48 @@ class Overflow(Exception):
     pass
 
 
-def enumerate_derivations(g, text, limit=2000):
-    """ALL derivation trees of `text` from 'start': tuples (alias, child...) with leaves (char, terminal name)"""
+def basic_lexer_choice(g, mode):
+    """which of several terminals matching the same character the BASIC lexer emits: the highest priority wins (the lowest under
+    priority='invert', none under priority=None), ties go to the name that sorts first -- the documented order of the lexer"""
+    # (lark drops rules that cannot be reached from the start symbol and then terminals that no remaining rule uses)
+    reach, todo = set(), ['start']
+    while todo:
+        nt = todo.pop()
+        if nt in reach:
+            continue
+        reach.add(nt)
+        for a in g['rules'][nt]:
+            todo += [x for x in a if x in g['rules']]
+    used = {x for nt in reach for a in g['rules'][nt] for x in a if x in g['terms']}
+    by_char = {}
+    for t, c in g['terms'].items():
+        if t in used:
+            by_char.setdefault(c, []).append(t)
+    out = {}
+    for c, ts in by_char.items():
+        def key(t):
+            p = g['tprio'].get(t, 0)
+            p = -p if mode == 'invert' else (0 if mode is None else p)
+            return (-p, t)
+        out[c] = sorted(ts, key=key)[0]
+    return out
+
+
+def enumerate_derivations(g, text, limit=2000, only_terminals=None):
+    """ALL derivation trees of `text` from 'start': tuples (alias, child...) with leaves (char, terminal name).
+    only_terminals: {char: terminal} restricts every character to the one terminal a basic lexer emits for it"""
     terms, rules = g['terms'], g['rules']
+    if only_terminals is not None:
+        terms = {t: c for t, c in terms.items() if only_terminals.get(c) == t}
+        allterms = g['terms']
     n = len(text)
 
     @lru_cache(maxsize=None)
     def trees(sym, i, j):
         if sym in terms:
             return ((text[i], sym),) if j == i + 1 and text[i] == terms[sym] else ()
+        if sym in g['terms']:
+            return ()                                  # a terminal the basic lexer never emits
         out = []
         for ai, syms in enumerate(rules[sym]):
             alias = '%s_%d' % (sym, ai)
